@@ -6,6 +6,7 @@ import itertools
 import re
 
 _INT = re.compile(r"^-?[0-9]+$")
+_PLUS_INT = re.compile(r"^\+[0-9]+$")
 
 
 class Valid:
@@ -65,14 +66,17 @@ def read_dimacs(text):
                 return Invalid("ill-formed problem line")
             if toks[0] != "p":
                 # e.g. 'pcnf 3 2 1': first token is not exactly 'p'
-                gray = gray or "first token of problem line is not 'p'"
+                return Invalid("first token of problem line is not 'p'")
             if toks[1] != "cnf":
-                gray = gray or "problem line format is not 'cnf'"
+                # 'p wcnf', 'p dnf', ...: another format, not a CNF
+                return Invalid("problem line format is not 'cnf'")
             for t in toks[2:]:
                 if not _INT.match(t):
-                    if _python_int_accepts(t):
-                        gray = gray or "exotic integer spelling"
+                    if _PLUS_INT.match(t):
+                        gray = gray or "integer written with a plus sign"
                     else:
+                        # '1_0', non-ASCII digits: integers for python,
+                        # not for DIMACS
                         return Invalid("non-numeric count")
             try:
                 n, m = int(toks[2]), int(toks[3])
@@ -85,8 +89,8 @@ def read_dimacs(text):
             return Invalid("clause before problem line")
         for tok in line.split():
             if not _INT.match(tok):
-                if _python_int_accepts(tok):
-                    gray = gray or "exotic integer spelling"
+                if _PLUS_INT.match(tok):
+                    gray = gray or "integer written with a plus sign"
                 else:
                     return Invalid("non-integer token", repr(tok))
             v = int(tok)
